@@ -8,6 +8,14 @@ os.makedirs(work, exist_ok=True)
 junit = os.path.join(work, 'baseline.junit.xml')
 cmd = base['cmd'].replace('<file>', junit)
 env = dict(os.environ); env.pop('MEASURED_VERIF', None)
+import shutil
+def _clean():
+    # hypothesis' example database would replay a once-found failure forever; keep /repo pristine
+    for d in ('.hypothesis', '.benchmarks', '.coverage', '.pytest_cache'):
+        p = os.path.join('/repo', d)
+        if os.path.isdir(p): shutil.rmtree(p, ignore_errors=True)
+        elif os.path.exists(p): os.remove(p)
+_clean()
 subprocess.run(cmd, shell=True, env=env, stdout=subprocess.DEVNULL, stderr=subprocess.DEVNULL)
 passed = set()
 for tc in ET.parse(junit).getroot().iter('testcase'):
@@ -18,4 +26,5 @@ print(f"stable_pass={len(base['stable_pass'])} passed_now={len(passed)} missing=
 for m in missing[:40]:
     print("  MISSING", m)
 os.remove(junit)
+_clean()
 sys.exit(1 if missing else 0)
